@@ -433,19 +433,24 @@ theorem pre_of_synced {fixed : Bool} {D : Data} : ∀ s, Synced fixed D s → Pr
     injection hk with hk _
     rw [← hk, h.2.2.2.2.1, h.2.1]
 
-theorem retrieve_eq (fixed : Bool) (c : Level) (anc : List Level) :
-    ∃ R, retrieve fixed c anc = { c with manRoot := R } := by
+theorem retrieve_eq (fixed snap : Bool) (c : Level) (anc : List Level) :
+    ∃ R, retrieve fixed snap c anc = { c with manRoot := R } := by
   unfold retrieve
-  split
-  · exact ⟨c.manRoot, rfl⟩
-  · split
+  cases snap
+  · simp only [Bool.false_eq_true, if_false]
+    unfold retrieveOld
+    split
     · exact ⟨c.manRoot, rfl⟩
-    · exact ⟨_, rfl⟩
+    · split
+      · exact ⟨c.manRoot, rfl⟩
+      · exact ⟨_, rfl⟩
+  · exact ⟨_, rfl⟩
 
 theorem length_combine (len : Nat) (box : List (List Bool)) (manual : List Bool) :
     (combine len box manual).length = len := by simp [combine]
 
-theorem applyFilter_ne_nil (fixed : Bool) (D : Data) : ∀ s, s ≠ [] → applyFilter fixed D s ≠ []
+theorem applyFilter_ne_nil (fixed snap : Bool) (D : Data) :
+    ∀ s, s ≠ [] → applyFilter fixed snap D s ≠ []
   | [], h => absurd rfl h
   | [r], _ => by simp [applyFilter]
   | c :: p :: rest, _ => by simp [applyFilter]
@@ -469,19 +474,19 @@ theorem synced_refresh {fixed : Bool} {D : Data} (c : Level) (q : Level) (qs : L
     · simpa [filterUpdate] using hc q.all t (by rw [← hk', ht])
 
 /-- theorem 2, strong form: `apply_filter` of the youngest member leaves a synchronised chain -/
-theorem synced_applyFilter {fixed : Bool} {D : Data} : ∀ s, Pre D s →
-    Synced fixed D (applyFilter fixed D s)
+theorem synced_applyFilter {fixed snap : Bool} {D : Data} : ∀ s, Pre D s →
+    Synced fixed D (applyFilter fixed snap D s)
   | [], _ => trivial
   | [r], h => by
     obtain ⟨h1, h2, h3⟩ := h
     exact ⟨by simpa [filterUpdate] using h1, by simpa [filterUpdate] using h2,
       by simp [filterUpdate, length_combine, h2], by simpa [filterUpdate] using h3⟩
   | c :: p :: rest, h => by
-    have ih := synced_applyFilter (fixed := fixed) (p :: rest) h.2
+    have ih := synced_applyFilter (fixed := fixed) (snap := snap) (p :: rest) h.2
     simp only [applyFilter]
-    obtain ⟨R, hR⟩ := retrieve_eq fixed c (p :: rest)
-    cases hps : applyFilter fixed D (p :: rest) with
-    | nil => exact absurd hps (applyFilter_ne_nil fixed D _ (by simp))
+    obtain ⟨R, hR⟩ := retrieve_eq fixed snap c (p :: rest)
+    cases hps : applyFilter fixed snap D (p :: rest) with
+    | nil => exact absurd hps (applyFilter_ne_nil fixed snap D _ (by simp))
     | cons q qs =>
       rw [hps] at ih
       apply synced_refresh _ q qs ih
@@ -490,13 +495,14 @@ theorem synced_applyFilter {fixed : Bool} {D : Data} : ∀ s, Pre D s →
 
 /-! ## per-level invariants -/
 
-/-- what the user excluded and still sees is excluded; nothing else is -/
+/-- what the user excluded (and did not re-include) and still sees is excluded; nothing else is -/
 def GI2 (c : Level) : Prop :=
-  (∀ r, r ∈ c.gM → r ∈ c.ev → r ∈ excl c) ∧ (∀ r, r ∈ excl c → r ∈ c.gEver)
+  (∀ r, r ∈ c.gM → r ∈ c.ev → r ∈ excl c) ∧ (∀ r, r ∈ excl c → r ∈ c.gM)
 
-/-- exclusions of events that are currently hidden are remembered in `_man_root_ids` -/
+/-- exclusions of events that are currently hidden are remembered in `_man_root_ids`; what is
+remembered is either still wanted or visible (then `manual` decides) -/
 def GI4 (c : Level) : Prop :=
-  (∀ r, r ∈ c.gM → r ∉ c.ev → r ∈ c.manRoot) ∧ (∀ r, r ∈ c.manRoot → r ∈ c.gEver)
+  (∀ r, r ∈ c.gM → r ∉ c.ev → r ∈ c.manRoot) ∧ (∀ r, r ∈ c.manRoot → r ∈ c.gM ∨ r ∈ c.ev)
 
 /-- every cached box filter is the one of `_old_config` on the level's current events -/
 def BoxInv (D : Data) (c : Level) : Prop :=
@@ -519,61 +525,25 @@ theorem excl_eq_nil_of_all {c : Level} (h : c.manual.all id = true)
   simp [List.getD_eq_getElem?_getD, hi'] at hm
   simp [hm] at this
 
-/-- `retrieve_manual_indices` on a synchronised chain: the new `_man_root_ids` contain every
-currently excluded root id and every remembered id that is hidden, and nothing new -/
-theorem retrieve_spec {D : Data} (c : Level) (anc : List Level) (hne : anc ≠ [])
-    (hs : Synced true D (c :: anc)) :
-    ∃ R, retrieve true c anc = { c with manRoot := R } ∧
-      (∀ r, r ∈ R → r ∈ excl c ∨ r ∈ c.manRoot) ∧ (∀ r, r ∈ excl c → r ∈ R) ∧
+/-- `retrieve_manual_indices` (F32 repair), for a filter whose `_root_ids` are the member's
+cached events: the new `_man_root_ids` contain every currently excluded root id and every
+remembered id that is hidden, and nothing else — whatever the state of the ancestors -/
+theorem retrieveSnap_spec (c : Level) (hr : c.rootIds = c.ev) :
+    ∃ R, retrieveSnap c = { c with manRoot := R } ∧
+      (∀ r, r ∈ R → r ∈ excl c ∨ (r ∈ c.manRoot ∧ r ∉ c.ev)) ∧ (∀ r, r ∈ excl c → r ∈ R) ∧
       (∀ r, r ∈ c.manRoot → r ∉ c.ev → r ∈ R) := by
-  obtain ⟨hev, hwf⟩ := synced_ids anc c hs
-  have hl := synced_len hs
-  have hml : c.manual.length = c.ev.length := by omega
-  have hkey : c.phash = key true anc := by
-    cases anc with
-    | nil => exact absurd rfl hne
-    | cons p rest => exact hs.2.2.2.2.2.1
-  have hne' : anc.map (·.all) ≠ [] := by simpa using hne
-  unfold retrieve
-  rw [if_neg (by simp [hkey])]
-  split
-  · rename_i hall
-    refine ⟨c.manRoot, rfl, fun r h => Or.inr h, ?_, fun r h _ => h⟩
-    intro r hr; exact absurd hr (excl_eq_nil_of_all hall hml r)
-  · refine ⟨_, rfl, ?_⟩
-    -- pbool = excl c
-    have hpb : c2root (anc.map (·.all)) (whereIdx (c.manual.map not)) = excl c := by
-      rw [c2root_eq _ _ hwf]
-      · unfold excl
-        rw [sel_eq_map 0 _ c.ev (by simpa using hml.symm), hev]
-      · intro i hi
-        have := lt_of_mem_whereIdx hi
-        rw [← hev]; simpa [hml] using this
-    -- pvis_p = visible part of pall
-    have hvis : ∀ pall : List Nat,
-        c2root (anc.map (·.all)) (r2c (anc.map (·.all)) pall) = c.ev.filter (fun r => pall.contains r) := by
-      intro pall
-      rw [r2c_eq _ _ hne' hwf, c2root_eq _ _ hwf]
-      · rw [← hev, ← sel_eq_map 0 _ c.ev (by simp)]
-        exact sel_map_self _ _
-      · intro i hi
-        have := lt_of_mem_whereIdx hi
-        simpa using this
-    simp only [hpb, hvis]
-    have hsub : ∀ r, r ∈ excl c → r ∈ c.ev := fun r hr => (sel_sublist _ _).subset hr
-    refine ⟨?_, ?_, ?_⟩
-    · intro r hr
-      simp only [mem_normSet, List.mem_append, List.mem_filter] at hr
-      rcases hr with hr | ⟨hr, _⟩
-      · exact Or.inl hr
-      · exact hr
-    · intro r hr
-      simp only [mem_normSet, List.mem_append]
-      exact Or.inl hr
-    · intro r hr hnv
-      simp only [mem_normSet, List.mem_append, List.mem_filter]
-      refine Or.inr ⟨Or.inr hr, ?_⟩
-      simp [List.mem_filter, hnv]
+  refine ⟨_, rfl, ?_, ?_, ?_⟩
+  · intro r h
+    simp only [mem_normSet, List.mem_append, List.mem_filter, hr] at h
+    rcases h with h | ⟨h, hv⟩
+    · exact Or.inl h
+    · exact Or.inr ⟨h, by simpa using hv⟩
+  · intro r h
+    simp only [mem_normSet, List.mem_append, hr]
+    exact Or.inl h
+  · intro r h hv
+    simp only [mem_normSet, List.mem_append, List.mem_filter, hr]
+    exact Or.inr ⟨h, by simpa using hv⟩
 
 theorem bne_false_eq {a b : Rng} (h : (a != b) = false) : a = b := by
   simpa using h
@@ -640,7 +610,7 @@ theorem idsOf_headSel {fixed : Bool} {D : Data} {q : Level} {qs : List Level}
 /-- one member of the chain during `apply_filter`, after its ancestors have been refreshed -/
 theorem refresh_level {D : Data} (c1 : Level) (q : Level) (qs : List Level)
     (hps : Synced true D (q :: qs))
-    (hstar : ∀ r, r ∈ c1.gM → r ∈ c1.manRoot) (hstar2 : ∀ r, r ∈ c1.manRoot → r ∈ c1.gEver)
+    (hstar : ∀ r, r ∈ c1.gM → r ∈ c1.manRoot) (hstar2 : ∀ r, r ∈ c1.manRoot → r ∈ c1.gM)
     (hframe : key true (q :: qs) = c1.phash →
       c1.ev = sel q.all q.ev ∧ c1.len = cnt q.all ∧ c1.manual.length = c1.len ∧ GI2 c1)
     (hbox : BoxInv D c1) :
@@ -688,7 +658,7 @@ theorem refresh_level {D : Data} (c1 : Level) (q : Level) (qs : List Level)
       rw [excl_filterUpdate, hex] at hr
       exact hstar2 r hr.2
     · intro r hM _; exact hstar r hM
-    · intro r hr; exact hstar2 r hr
+    · intro r hr; exact Or.inl (hstar2 r hr)
   · -- same parent filters, hence the same events: nothing moves
     rename_i hk
     have hk' : key true (q :: qs) = c1.phash := by simpa using hk
@@ -699,57 +669,166 @@ theorem refresh_level {D : Data} (c1 : Level) (q : Level) (qs : List Level)
     obtain ⟨hb', hfresh⟩ := filterUpdate_box hbox (by rw [hev, hln]; exact hlen)
     refine ⟨⟨hgi, ⟨?_, ?_⟩, hb'⟩, hfresh⟩
     · intro r hM _; exact hstar r hM
-    · intro r hr; exact hstar2 r hr
+    · intro r hr; exact Or.inl (hstar2 r hr)
 
 
-/-- the invariants survive `youngest.rejuvenate()`, and afterwards every `filter.all` is the
-configured filter on the member's current events -/
-theorem inv_applyFilter {D : Data} : ∀ s, Synced true D s → (∀ c ∈ s, LI D c) →
-    ∀ c ∈ applyFilter true D s, LI D c ∧ c.all = specAll D c
-  | [], _, _ => by simp [applyFilter]
-  | [r], hs, hi => by
+/-! ## invariants of arbitrary (also partially refreshed) chains -/
+
+/-- what every hierarchy child knows about itself, whatever the state of its ancestors: its
+cached events are the ones its stored parent hash describes, `_root_ids` are these events, and
+`manual` / `_length` have their size -/
+def CI (D : Data) (c : Level) : Prop :=
+  (∀ a t, c.phash = a :: t → c.ev = idsOf D.n c.phash ∧ WF D.n c.phash) ∧
+    c.rootIds = c.ev ∧ c.manual.length = c.ev.length ∧ c.ev.length = c.len ∧
+    c.ev.Pairwise (· < ·)
+
+theorem lenOK_of_ci {D : Data} {c : Level} (h : CI D c) : LenOK c := by
+  intro a t hk
+  obtain ⟨h1, h2⟩ := h.1 a t hk
+  rw [h.2.2.1, h1, hk]
+  rw [hk] at h2
+  exact length_idsOf_cons h2
+
+theorem key_true (s : List Level) : key true s = s.map (·.all) := by simp [key]
+
+theorem refresh_ci {D : Data} (c1 : Level) (q : Level) (qs : List Level)
+    (hps : Synced true D (q :: qs)) (hci : CI D c1) : CI D (refresh true D c1 (q :: qs)) := by
+  have hq := synced_len hps
+  have hlen : (sel q.all q.ev).length = cnt q.all := length_sel _ _ (by omega)
+  obtain ⟨hids, hwf⟩ := idsOf_headSel hps
+  simp only [refresh, headAll, headEv]
+  split
+  · refine ⟨?_, ?_, ?_, ?_, ?_⟩
+    · intro a t _
+      show sel q.all q.ev = idsOf D.n (key true (q :: qs)) ∧ WF D.n (key true (q :: qs))
+      rw [key_true]; exact ⟨hids, hwf⟩
+    · show c2root ((q :: qs).map (·.all)) (List.range (cnt q.all)) = sel q.all q.ev
+      rw [c2root_eq _ _ hwf]
+      · rw [← hids, ← hlen]; exact range_map_getD 0 _
+      · intro i hi; rw [← hids, hlen]; simpa using hi
+    · show ((List.range (cnt q.all)).map _).length = (sel q.all q.ev).length
+      simp [hlen]
+    · exact hlen
+    · show (sel q.all q.ev).Pairwise (· < ·)
+      rw [hids]; exact idsOf_pairwise _ _
+  · rename_i hk
+    have hk' : key true (q :: qs) = c1.phash := by simpa using hk
+    have hph : c1.phash = q.all :: qs.map (·.all) := by rw [← hk', key_true]; rfl
+    obtain ⟨h1, h2⟩ := hci.1 _ _ hph
+    have hev : c1.ev = sel q.all q.ev := by rw [h1, ← hk', key_true]; exact hids.symm
+    refine ⟨?_, ?_, ?_, ?_, ?_⟩
+    · intro a t _
+      show sel q.all q.ev = idsOf D.n c1.phash ∧ _
+      exact ⟨by rw [← hev]; exact h1, h2⟩
+    · show c1.rootIds = sel q.all q.ev
+      rw [hci.2.1, hev]
+    · show c1.manual.length = (sel q.all q.ev).length
+      rw [hci.2.2.1, hev]
+    · exact hlen
+    · show (sel q.all q.ev).Pairwise (· < ·)
+      rw [hids]; exact idsOf_pairwise _ _
+
+def GInv (D : Data) : List Level → Prop
+  | [] => False
+  | [r] => (r.ev = List.range D.n ∧ r.len = D.n ∧ r.manual.length = D.n) ∧ LI D r
+  | c :: p :: rest => CI D c ∧ LI D c ∧ GInv D (p :: rest)
+
+theorem ginv_ne_nil {D : Data} {s : List Level} (h : GInv D s) : s ≠ [] := by
+  intro hs; subst hs; exact h
+
+theorem pre_of_ginv {D : Data} : ∀ s, GInv D s → Pre D s
+  | [], h => h.elim
+  | [_], h => h.1
+  | _ :: _ :: _, h => ⟨lenOK_of_ci h.1, pre_of_ginv _ h.2.2⟩
+
+theorem ginv_mem {D : Data} : ∀ s, GInv D s →
+    ∀ c ∈ s, LI D c ∧ c.manual.length = c.ev.length ∧ c.ev.Pairwise (· < ·)
+  | [], h, _, _ => h.elim
+  | [r], h, c, hc => by
+    simp only [List.mem_singleton] at hc
+    subst hc
+    exact ⟨h.2, by rw [h.1.1, h.1.2.2]; simp, by rw [h.1.1]; exact List.pairwise_lt_range⟩
+  | d :: p :: rest, h, c, hc => by
+    rcases List.mem_cons.1 hc with rfl | hc
+    · exact ⟨h.2.1, h.1.2.2.1, h.1.2.2.2.2⟩
+    · exact ginv_mem _ h.2.2 c hc
+
+/-- the invariants survive a refresh of the head of a chain (any earlier partial refreshes
+allowed), and afterwards every `filter.all` is the configured filter on the member's events -/
+theorem ginv_applyFilter {D : Data} : ∀ s, GInv D s →
+    GInv D (applyFilter true true D s) ∧ ∀ c ∈ applyFilter true true D s, c.all = specAll D c
+  | [], h => h.elim
+  | [r], h => by
+    obtain ⟨⟨h1, h2, h3⟩, g2, g4, hb⟩ := h
+    obtain ⟨hb', hf⟩ := filterUpdate_box hb (by rw [h1, h2]; simp)
+    refine ⟨⟨⟨h1, h2, h3⟩, g2, g4, hb'⟩, ?_⟩
     intro c hc
     simp only [applyFilter, List.mem_singleton] at hc
-    subst hc
-    obtain ⟨g2, g4, hb⟩ := hi r (by simp)
-    obtain ⟨hb', hf⟩ := filterUpdate_box hb (synced_len hs).1
-    exact ⟨⟨g2, g4, hb'⟩, hf⟩
-  | c :: p :: rest, hs, hi => by
-    have hst := synced_tail hs
-    have ih := inv_applyFilter (p :: rest) hst (fun d hd => hi d (by simp [hd]))
-    have hps := synced_applyFilter (fixed := true) (p :: rest) (pre_of_synced _ hst)
+    subst hc; exact hf
+  | c :: p :: rest, h => by
+    obtain ⟨hci, ⟨g2, g4, hb⟩, hrest⟩ := h
+    obtain ⟨ih1, ih2⟩ := ginv_applyFilter (p :: rest) hrest
+    have hps := synced_applyFilter (fixed := true) (snap := true) (p :: rest) (pre_of_ginv _ hrest)
     simp only [applyFilter]
-    cases hq : applyFilter true D (p :: rest) with
-    | nil => exact absurd hq (applyFilter_ne_nil true D _ (by simp))
+    cases hq : applyFilter true true D (p :: rest) with
+    | nil => exact absurd hq (applyFilter_ne_nil true true D _ (by simp))
     | cons q qs =>
-      rw [hq] at ih hps
-      intro d hd
-      rcases List.mem_cons.1 hd with rfl | hd
-      · obtain ⟨g2, g4, hb⟩ := hi c (by simp)
-        obtain ⟨R, hR, h1, h2, h3⟩ := retrieve_spec c (p :: rest) (by simp) hs
-        rw [hR]
-        apply refresh_level _ q qs hps
-        · intro r hM
+      rw [hq] at ih1 ih2 hps
+      have hret : retrieve true true c (p :: rest) = retrieveSnap c := by simp [retrieve]
+      obtain ⟨R, hR, h1, h2, h3⟩ := retrieveSnap_spec c hci.2.1
+      rw [hret, hR]
+      have hci' : CI D { c with manRoot := R } := hci
+      have hlev := refresh_level { c with manRoot := R } q qs hps
+        (by
+          intro r hM
           by_cases hv : r ∈ c.ev
           · exact h2 r (g2.1 r hM hv)
-          · exact h3 r (g4.1 r hM hv) hv
-        · intro r hr
-          rcases h1 r hr with h | h
+          · exact h3 r (g4.1 r hM hv) hv)
+        (by
+          intro r hr
+          rcases h1 r hr with h | ⟨h, hv⟩
           · exact g2.2 r h
-          · exact g4.2 r h
-        · intro hk
-          have hl := synced_len hs
-          have hph : c.phash = key true (p :: rest) := hs.2.2.2.2.2.1
-          have halls : (q :: qs).map (·.all) = (p :: rest).map (·.all) := by
-            have : key true (q :: qs) = key true (p :: rest) := hk.trans hph
-            simpa [key] using this
-          have hev : c.ev = sel q.all q.ev := by
-            rw [(synced_ids _ c hs).1, (idsOf_headSel hps).1, halls]
+          · rcases g4.2 r h with h' | h'
+            · exact h'
+            · exact absurd h' hv)
+        (by
+          intro hk
           have hq' := synced_len hps
-          have : (sel q.all q.ev).length = cnt q.all := length_sel _ _ (by omega)
-          exact ⟨hev, by show c.len = _; rw [← hl.1, hev, this], hl.2.2, g2⟩
-        · exact hb
-      · exact ih d hd
+          have hlen : (sel q.all q.ev).length = cnt q.all := length_sel _ _ (by omega)
+          have hph : c.phash = q.all :: qs.map (·.all) := by
+            have : key true (q :: qs) = c.phash := hk
+            rw [← this, key_true]; rfl
+          obtain ⟨e1, _⟩ := hci.1 _ _ hph
+          have hev : c.ev = sel q.all q.ev := by
+            rw [e1, hph]; exact (idsOf_headSel hps).1.symm
+          refine ⟨hev, ?_, ?_, g2⟩
+          · show c.len = _; rw [← hci.2.2.2.1, hev, hlen]
+          · show c.manual.length = c.len; rw [hci.2.2.1, hci.2.2.2.1])
+        hb
+      refine ⟨⟨refresh_ci _ q qs hps hci', hlev.1, ih1⟩, ?_⟩
+      intro d hd
+      rcases List.mem_cons.1 hd with rfl | hd
+      · exact hlev.2
+      · exact ih2 d hd
+
+theorem ginv_cons {D : Data} {c : Level} {X : List Level} (hc : CI D c) (hl : LI D c)
+    (hX : GInv D X) : GInv D (c :: X) := by
+  cases X with
+  | nil => exact hX.elim
+  | cons q qs => exact ⟨hc, hl, hX⟩
+
+/-- … and a refresh of an intermediate member (`rejuvenate` / `set_temporary_feature` there) -/
+theorem ginv_rejuvAt {D : Data} : ∀ (k : Nat) (s : List Level), GInv D s →
+    GInv D (rejuvAt true true D k s)
+  | 0, s, h => by simpa [rejuvAt] using (ginv_applyFilter s h).1
+  | _ + 1, [], h => h.elim
+  | _ + 1, [_], h => by simpa [rejuvAt, applyFilter] using h
+  | k + 1, c :: p :: rest, h => by
+    have ih := ginv_rejuvAt k (p :: rest) h.2.2
+    have : rejuvAt true true D (k + 1) (c :: p :: rest) = c :: rejuvAt true true D k (p :: rest) := by
+      simp [rejuvAt]
+    rw [this]
+    exact ginv_cons h.1 h.2.1 ih
 
 /-! ## user edits -/
 
@@ -764,7 +843,8 @@ theorem getD_set_bool (l : List Bool) (p i : Nat) (b d : Bool) :
   · simp [h]
 
 theorem li_manualEdit {D : Data} (p : Nat) (b : Bool) (c : Level) (h : LI D c)
-    (hl : c.manual.length = c.ev.length) : LI D (manualEdit p b c) := by
+    (hl : c.manual.length = c.ev.length) (hpw : c.ev.Pairwise (· < ·)) :
+    LI D (manualEdit p b c) := by
   obtain ⟨⟨g21, g22⟩, ⟨g41, g42⟩, hb⟩ := h
   unfold manualEdit
   split
@@ -813,7 +893,9 @@ theorem li_manualEdit {D : Data} (p : Nat) (b : Bool) (c : Level) (h : LI D c)
         · exact g41 x hx hv
       · intro x hx
         simp only [if_false, Bool.false_eq_true, List.mem_cons]
-        exact Or.inr (g42 x hx)
+        rcases g42 x hx with h | h
+        · exact Or.inl (Or.inr h)
+        · exact Or.inr h
     · -- re-include event p
       refine ⟨⟨?_, ?_⟩, ⟨?_, ?_⟩, hb⟩
       · intro x hx hv
@@ -831,80 +913,60 @@ theorem li_manualEdit {D : Data} (p : Nat) (b : Bool) (c : Level) (h : LI D c)
         rw [getD_set_bool] at hm'
         split at hm'
         · simp at hm'
-        · exact g22 x ((mem_excl c hl x).2 ⟨i, hi, hm', he⟩)
+        · rename_i hne
+          have hpi : p ≠ i := fun h => hne ⟨h, hpm⟩
+          simp only [if_true, List.mem_filter, bne_iff_ne, ne_eq]
+          refine ⟨g22 x ((mem_excl c hl x).2 ⟨i, hi, hm', he⟩), ?_⟩
+          intro hxr
+          apply hpi
+          exact getD_inj_of_pairwise hpw hp hi (by rw [hrv, he, hxr])
       · intro x hx hv
         simp only [if_true, List.mem_filter] at hx
         exact g41 x hx.1 hv
-      · intro x hx; exact g42 x hx
+      · intro x hx
+        simp only [if_true, List.mem_filter, bne_iff_ne, ne_eq]
+        rcases g42 x hx with h | h
+        · by_cases hxr : x = r
+          · exact Or.inr (hxr ▸ hrm)
+          · exact Or.inl ⟨h, hxr⟩
+        · exact Or.inr h
 
 theorem shape_manualEdit (p : Nat) (b : Bool) (c : Level) :
     (manualEdit p b c).ev = c.ev ∧ (manualEdit p b c).len = c.len ∧
       (manualEdit p b c).all = c.all ∧ (manualEdit p b c).manual.length = c.manual.length ∧
-      (manualEdit p b c).phash = c.phash := by
+      (manualEdit p b c).phash = c.phash ∧ (manualEdit p b c).rootIds = c.rootIds := by
   unfold manualEdit
   split
   · simp
   · split <;> simp
 
-theorem forall_modAt {P : Level → Prop} (f : Level → Level) : ∀ (k : Nat) (s : List Level),
-    (∀ c ∈ s, P c) → (∀ c ∈ s, P c → P (f c)) → ∀ c ∈ modAt k f s, P c
-  | _, [], _, _ => by simp [modAt]
-  | 0, d :: s, h, hf => by
-    intro c hc
-    simp only [modAt, List.mem_cons] at hc
-    rcases hc with rfl | hc
-    · exact hf d (by simp) (h d (by simp))
-    · exact h c (by simp [hc])
-  | k + 1, d :: s, h, hf => by
-    intro c hc
-    simp only [modAt, List.mem_cons] at hc
-    rcases hc with rfl | hc
-    · exact h c (by simp)
-    · exact forall_modAt f k s (fun c hc => h c (by simp [hc]))
-        (fun c hc => hf c (by simp [hc])) c hc
-
-theorem map_all_modAt (f : Level → Level) (hf : ∀ c, (f c).all = c.all) :
-    ∀ (k : Nat) (s : List Level), (modAt k f s).map (·.all) = s.map (·.all)
-  | _, [] => by simp [modAt]
-  | 0, d :: s => by simp [modAt, hf]
-  | k + 1, d :: s => by simp [modAt, map_all_modAt f hf k s]
-
-theorem key_modAt (f : Level → Level) (hf : ∀ c, (f c).all = c.all) (k : Nat) (s : List Level) :
-    key true (modAt k f s) = key true s := by
-  simp [key, map_all_modAt f hf k s]
-
-/-- edits that leave `ev`, `len`, `all`, `phash` and the size of `manual` alone keep a chain
-synchronised (configuration and manual edits) -/
-theorem synced_modAt {D : Data} (f : Level → Level)
+/-- edits that leave `ev`, `len`, `phash`, `_root_ids` and the size of `manual` alone
+(configuration and manual edits) keep the invariants -/
+theorem ginv_modAt {D : Data} (f : Level → Level)
     (hf : ∀ c, (f c).ev = c.ev ∧ (f c).len = c.len ∧ (f c).all = c.all ∧
-      (f c).manual.length = c.manual.length ∧ (f c).phash = c.phash) :
-    ∀ (k : Nat) (s : List Level), Synced true D s → Synced true D (modAt k f s)
-  | _, [], _ => by simp [modAt, Synced]
+      (f c).manual.length = c.manual.length ∧ (f c).phash = c.phash ∧ (f c).rootIds = c.rootIds)
+    (hli : ∀ c, c.manual.length = c.ev.length → c.ev.Pairwise (· < ·) → LI D c → LI D (f c)) :
+    ∀ (k : Nat) (s : List Level), GInv D s → GInv D (modAt k f s)
+  | _, [], h => h.elim
   | 0, [r], h => by
-    obtain ⟨h1, h2, h3, h4, h5⟩ := hf r
-    simp only [modAt, Synced]
-    rw [h1, h2, h3, h4]; exact h
+    obtain ⟨h1, h2, _, h4, _, _⟩ := hf r
+    obtain ⟨⟨e1, e2, e3⟩, hl⟩ := h
+    exact ⟨⟨by rw [h1]; exact e1, by rw [h2]; exact e2, by rw [h4]; exact e3⟩,
+      hli r (by rw [e1, e3]; simp) (by rw [e1]; exact List.pairwise_lt_range) hl⟩
   | k + 1, [r], h => by simpa [modAt] using h
   | 0, c :: p :: rest, h => by
-    obtain ⟨h1, h2, h3, h4, h5⟩ := hf c
-    simp only [modAt, Synced]
-    rw [h1, h2, h3, h4, h5]; exact h
+    obtain ⟨h1, h2, _, h4, h5, h6⟩ := hf c
+    obtain ⟨hci, hl, hrest⟩ := h
+    refine ⟨?_, hli c hci.2.2.1 hci.2.2.2.2 hl, hrest⟩
+    unfold CI
+    rw [h1, h2, h4, h5, h6]; exact hci
   | k + 1, c :: p :: rest, h => by
-    have ih := synced_modAt f hf k (p :: rest) (synced_tail h)
-    have hk := key_modAt f (fun c => (hf c).2.2.1) k (p :: rest)
-    obtain ⟨g1, g2, g3, g4, g5, g6, _⟩ := h
-    cases k with
-    | zero =>
-      obtain ⟨h1, h2, h3, h4, h5⟩ := hf p
-      simp only [modAt] at ih hk ⊢
-      exact ⟨by rw [h1, h3]; exact g1, by rw [h3]; exact g2, g3, g4, g5, by rw [hk]; exact g6, ih⟩
-    | succ k =>
-      simp only [modAt] at ih hk ⊢
-      exact ⟨g1, g2, g3, g4, g5, by rw [hk]; exact g6, ih⟩
+    have ih := ginv_modAt f hf hli k (p :: rest) h.2.2
+    exact ginv_cons h.1 h.2.1 ih
 
 /-! ## the ghost fields are not part of the implementation -/
 
-def erase (c : Level) : Level := { c with gM := [], gEver := [] }
+def erase (c : Level) : Level := { c with gM := [] }
 
 theorem key_erase (fixed : Bool) (s : List Level) : key fixed (s.map erase) = key fixed s := by
   cases fixed
@@ -914,9 +976,13 @@ theorem key_erase (fixed : Bool) (s : List Level) : key fixed (s.map erase) = ke
 theorem map_all_erase (s : List Level) : (s.map erase).map (·.all) = s.map (·.all) := by
   simp [erase, Function.comp_def]
 
-theorem retrieve_erase (fixed : Bool) (c : Level) (anc : List Level) :
-    retrieve fixed (erase c) (anc.map erase) = erase (retrieve fixed c anc) := by
+theorem retrieve_erase (fixed snap : Bool) (c : Level) (anc : List Level) :
+    retrieve fixed snap (erase c) (anc.map erase) = erase (retrieve fixed snap c anc) := by
   unfold retrieve
+  cases snap
+  case true => rfl
+  simp only [Bool.false_eq_true, if_false]
+  unfold retrieveOld
   rw [key_erase, map_all_erase]
   show (if (key fixed anc != c.phash) = true then erase c else
         if c.manual.all id = true then erase c else _) = _
@@ -938,16 +1004,16 @@ theorem refresh_erase (fixed : Bool) (D : Data) (c : Level) (ps : List Level) :
   · rfl
 
 /-- the ghost fields are never read: erasing them commutes with `apply_filter` -/
-theorem applyFilter_erase (fixed : Bool) (D : Data) : ∀ s : List Level,
-    applyFilter fixed D (s.map erase) = (applyFilter fixed D s).map erase
+theorem applyFilter_erase (fixed snap : Bool) (D : Data) : ∀ s : List Level,
+    applyFilter fixed snap D (s.map erase) = (applyFilter fixed snap D s).map erase
   | [] => rfl
   | [r] => rfl
   | c :: p :: rest => by
-    have ih := applyFilter_erase fixed D (p :: rest)
+    have ih := applyFilter_erase fixed snap D (p :: rest)
     simp only [List.map_cons] at ih ⊢
     simp only [applyFilter]
     rw [ih]
-    have := retrieve_erase fixed c (p :: rest)
+    have := retrieve_erase fixed snap c (p :: rest)
     simp only [List.map_cons] at this
     rw [this, refresh_erase]
     simp
